@@ -85,7 +85,7 @@ def facets(tier):
     add('Decimal(gt)', ['p', 'Decimal', {'gt': E(D('0'))}], [('dec:%s' % s, D(s)) for s in ('0', '0.01', '-0.01', '1', '-1')])
     add('Decimal(ge,le)', ['p', 'Decimal', {'ge': E(D('0')), 'le': E(D('1'))}],
         [('dec:%s' % s, D(s)) for s in ('0', '1', '-0.01', '1.01', '0.5')])
-    add('Double(ge,le)', ['p', 'Double', {'ge': E(D('0')), 'le': E(D('1'))}],
+    add('Double(ge,le)', ['p', 'Double', {'ge': E(0.0), 'le': E(1.0)}],
         [('dbl:%r' % v, v) for v in (0.0, 1.0, -0.5, 1.5, 0.5)] + [('raw:abc', Raw('abc')), ('raw:1,5', Raw('1,5'))])
     for fid, t in [('Unicode(min_len)', T('Unicode', min_len=2)), ('Unicode(max_len)', T('Unicode', max_len=3)),
                    ('Unicode(min_len,max_len)', T('Unicode', min_len=2, max_len=3))]:
